@@ -56,6 +56,24 @@ def N(t):
     return None if t is None else t.detach().cpu().numpy().astype(np.float64)
 
 
+def layout_views(a, dtype=torch.float64):
+    """the deterministic covering set of memory layouts for a 4-D batch (N, C, H, W): tensors with the values of `a` whose
+    batch / channel / spatial strides are what users really hand over (NHWC data, a channel or batch slice of a larger
+    tensor, channel-major storage, a spatial crop).  Returns [(name, tensor)]."""
+    a = np.asarray(a, dtype=np.float64)
+    n, c, h, w = a.shape
+    t = torch.tensor(a, dtype=dtype)
+    out = [('contiguous', t), ('channels_last', t.contiguous(memory_format=torch.channels_last))]
+    big = torch.zeros((n, c + 1, h, w), dtype=dtype); big[:, :c] = t
+    out.append(('channel-slice of a larger tensor', big[:, :c]))
+    big = torch.zeros((2 * n, c, h, w), dtype=dtype); big[::2] = t
+    out.append(('every other batch item of a larger tensor', big[::2]))
+    out.append(('stored channel-major (C,N,H,W)', torch.tensor(np.ascontiguousarray(np.swapaxes(a, 0, 1)), dtype=dtype).transpose(0, 1)))
+    big = torch.zeros((n, c, h + 2, w + 3), dtype=dtype); big[:, :, 1:h + 1, 2:w + 2] = t
+    out.append(('spatial crop of a larger tensor', big[:, :, 1:h + 1, 2:w + 2]))
+    return out
+
+
 def ll():
     import pytorch_wavelets.dwt.lowlevel as lowlevel
     return lowlevel
